@@ -267,7 +267,7 @@ def order_ids(shape):
     return out
 
 
-def make_holes(shape, prefix='g', numform='sd.d'):
+def make_holes(shape, prefix='g', numform='sd.d', symbols=SYMBOLS):
     """create the symbolic hole values of a shape; returns the record (dict of SymStr/None)"""
     rec = {'name': {}, 'ann': {}, 'ord': {}, 'rord': [], 'rmark': [], 'numform': numform}
     for el in elems(shape['chain']):
@@ -283,9 +283,9 @@ def make_holes(shape, prefix='g', numform='sd.d'):
                 vals[piece[2:]] = SymStr.mk([sym_alnum("%s_a%s%s_%d" % (prefix, key, piece[2:], k)) for k in range(2)])
         rec['ann'][key] = vals
     for oid in order_ids(shape):
-        rec['ord'][oid] = SymStr([sym_char("%s_%s" % (prefix, oid), allowed=SYMBOLS)])
+        rec['ord'][oid] = SymStr([sym_char("%s_%s" % (prefix, oid), allowed=symbols)])
     for r, (a, b, kind, rord) in enumerate(shape['rings']):
-        rec['rord'].append(SymStr([sym_char("%s_ro%d" % (prefix, r), allowed=SYMBOLS)]) if rord == 's' else None)
+        rec['rord'].append(SymStr([sym_char("%s_ro%d" % (prefix, r), allowed=symbols)]) if rord == 's' else None)
         if kind == 'd':
             rec['rmark'].append(SymStr([sym_char("%s_rm%d" % (prefix, r), lo=49, hi=57)]))
         else:
@@ -313,7 +313,7 @@ def _ord(rec, oid):
 
 
 # ---- rendering -----------------------------------------------------------
-def render(shape, rec, mults=None):
+def render(shape, rec, mults=None, after_node=None):
     """-> (text between the braces as str/SymStr, side conditions)
 
     ``mults`` maps a multiplier id to its concrete count, written in decimal
@@ -351,6 +351,9 @@ def render(shape, rec, mults=None):
             else:
                 open_now.remove(r)
             out.extend(_chs(rec['rmark'][r]))
+        if after_node:
+            for extra in after_node.get(el['v'], []):
+                out.extend(_chs(extra))
 
     def walk(chain, first_written):
         # the order symbol of a branch's first element is written before '('
